@@ -21,3 +21,290 @@ Theorem script_code_independent_of_texts :
     emit_script mp tl1 name glob opt body = Ok x -> emit_script mp tl2 name glob opt body = Ok y -> x = y.
 Proof. exact C17Proofs.script_code_independent_of_texts. Qed.
 Print Assumptions script_code_independent_of_texts.
+
+(* ---- parser side of 'independent of unrelated statements' (Independence.v). swap ra rb s = the stream s with its rest ra replaced
+   by rb. parse_raw_swap, parse_movement_swap, parse_mart_swap, parse_text_swap, parse_const_swap2: a top-level statement parser gives
+   the same result whatever follows the statement (for const: if the next token has the same top-level class); parse_script_swap,
+   parse_mapscripts_swap: the same up to the shift of loop / switch tags and command ids, which are the number of tokens still to
+   read (TagRename.v: the emitter does not see that shift). top_step_context / tops_run_context: the loop parse_tops processes a
+   statement as it does in any other file, given the same constant table and hoisting state - the ONLY two channels between
+   statements; top_step_state: only const changes the constants, only script / mapscripts with inline data change the hoisting
+   state. parse_program_same_statements_real: the statements X get the same AST alone and between A and B (A without constants
+   and inline data). const_at_end_of_file (Independence.v): the one dependence on what follows - a const that ends the file
+   takes the EOF token into its (unusable) value. ---- *)
+From Pory Require Import Parser Format Independence. Open Scope list_scope.
+Theorem parse_raw_swap :
+  forall ra rb : toks,
+  ra <> [] ->
+  rb <> [] -> forall (x : toks) (tp : top) (y : toks), parse_raw x = Ok (tp, y) -> Gw ra 1 y -> parse_raw (swap ra rb x) = Ok (tp, swap ra rb y).
+Proof. exact Independence.parse_raw_swap. Qed.
+Print Assumptions parse_raw_swap.
+
+Theorem parse_movement_swap :
+  forall ra rb : toks,
+  ra <> [] ->
+  rb <> [] ->
+  forall (sw : list (text * text)) (ee : bool) (f : nat) (x : toks) (tp : top) (y : toks),
+  parse_movement sw ee f x = Ok (tp, y) -> Gw ra 1 y -> parse_movement sw ee f (swap ra rb x) = Ok (tp, swap ra rb y).
+Proof. exact Independence.parse_movement_swap. Qed.
+Print Assumptions parse_movement_swap.
+
+Theorem parse_mart_swap :
+  forall ra rb : toks,
+  ra <> [] ->
+  rb <> [] ->
+  forall (sw : list (text * text)) (ee : bool) (c : list (text * text)) (f : nat) (x : toks) (tp : top) (y : toks),
+  parse_mart sw ee c f x = Ok (tp, y) -> Gw ra 1 y -> parse_mart sw ee c f (swap ra rb x) = Ok (tp, swap ra rb y).
+Proof. exact Independence.parse_mart_swap. Qed.
+Print Assumptions parse_mart_swap.
+
+Theorem parse_text_swap :
+  forall ra rb : toks,
+  ra <> [] ->
+  rb <> [] ->
+  forall pf : toks -> res (token * text * text * toks),
+  (forall (ts : toks) (tk : token) (v sty : text) (ts' : toks),
+   pf ts = Ok (tk, v, sty, ts') -> forall a : toks, Consume.advs a ts -> Consume.advs a ts') ->
+  (forall (x : toks) (tk : token) (v sty : text) (y : toks),
+   pf x = Ok (tk, v, sty, y) -> Gw ra 1 y -> pf (swap ra rb x) = Ok (tk, v, sty, swap ra rb y)) ->
+  forall (sw : list (text * text)) (ee : bool) (f : nat) (x : toks) (td : textdef) (y : toks),
+  parse_text sw ee pf f x = Ok (td, y) -> Gw ra 1 y -> parse_text sw ee pf f (swap ra rb x) = Ok (td, swap ra rb y).
+Proof. exact Independence.parse_text_swap. Qed.
+Print Assumptions parse_text_swap.
+
+Theorem parse_const_swap2 :
+  forall ra rb : toks,
+  ra <> [] ->
+  rb <> [] ->
+  class_ok ra rb ->
+  forall (f : nat) (c : list (text * text)) (x : toks) (c' : list (text * text)) (y : toks),
+  parse_const f c x = Ok (c', y) -> Gw ra 1 y -> parse_const f c (swap ra rb x) = Ok (c', swap ra rb y).
+Proof. exact Independence.parse_const_swap2. Qed.
+Print Assumptions parse_const_swap2.
+
+Theorem parse_script_swap :
+  forall ra rb : toks,
+  ra <> [] ->
+  rb <> [] ->
+  forall (av : list (text * autovar)) (sw : list (text * text)) (pf : toks -> res (token * text * text * toks)),
+  (forall (ts : toks) (tk : token) (v sty : text) (ts' : toks),
+   pf ts = Ok (tk, v, sty, ts') -> forall a : toks, Consume.advs a ts -> Consume.advs a ts') ->
+  (forall (x : toks) (tk : token) (v sty : text) (y : toks),
+   pf x = Ok (tk, v, sty, y) -> Gw ra 1 y -> pf (swap ra rb x) = Ok (tk, v, sty, swap ra rb y)) ->
+  forall (ee : bool) (c : list (text * text)) (f : nat) (x : toks) (name : text) (g : bool) (b : list stmt) (imp : impdata) (y : toks),
+  parse_script av sw ee pf c f x = Ok (name, g, b, imp, y) ->
+  Gw ra 1 y -> parse_script av sw ee pf c f (swap ra rb x) = Ok (name, g, map (g_stmt (sh ra rb)) b, g_imp (sh ra rb) imp, swap ra rb y).
+Proof. exact Independence.parse_script_swap. Qed.
+Print Assumptions parse_script_swap.
+
+Theorem parse_mapscripts_swap :
+  forall ra rb : toks,
+  ra <> [] ->
+  rb <> [] ->
+  forall (av : list (text * autovar)) (sw : list (text * text)) (pf : toks -> res (token * text * text * toks)),
+  (forall (ts : toks) (tk : token) (v sty : text) (ts' : toks),
+   pf ts = Ok (tk, v, sty, ts') -> forall a : toks, Consume.advs a ts -> Consume.advs a ts') ->
+  (forall (x : toks) (tk : token) (v sty : text) (y : toks),
+   pf x = Ok (tk, v, sty, y) -> Gw ra 1 y -> pf (swap ra rb x) = Ok (tk, v, sty, swap ra rb y)) ->
+  forall (ee : bool) (c : list (text * text)) (f : nat) (x : toks) (tp : top) (imp : impdata) (y : toks),
+  parse_mapscripts av sw ee pf c f x = Ok (tp, imp, y) ->
+  Gw ra 1 y -> parse_mapscripts av sw ee pf c f (swap ra rb x) = Ok (g_top (sh ra rb) tp, g_imp (sh ra rb) imp, swap ra rb y).
+Proof. exact Independence.parse_mapscripts_swap. Qed.
+Print Assumptions parse_mapscripts_swap.
+
+Theorem parse_tops_step :
+  forall (av : list (text * autovar)) (sw : list (text * text)) (ee : bool) (pf : toks -> res (token * text * text * toks)) 
+    (f : nat) (st : pstate) (ts : toks),
+  parse_tops av sw ee pf (S f) st ts =
+  (if curis EOF ts
+   then Ok st
+   else
+    do (c', h', tps, txs, ts1) <- top_step av sw ee pf f (pconsts st) (ph st) ts; parse_tops av sw ee pf f (st_add st c' h' tps txs) (adv ts1)).
+Proof. exact Independence.parse_tops_step. Qed.
+Print Assumptions parse_tops_step.
+
+Theorem top_step_context :
+  forall (av : list (text * autovar)) (sw : list (text * text)) (ee : bool) (pf : toks -> res (token * text * text * toks)),
+  format_advs pf ->
+  format_local pf ->
+  forall ra rb : list token,
+  ra <> [] ->
+  rb <> [] ->
+  forall (f : nat) (c : list (text * text)) (h : hst) (x : toks) (c' : list (text * text)) (h' : hst) (tps : list top) 
+    (txs : list textdef) (y : toks),
+  top_step av sw ee pf f c h x = Ok (c', h', tps, txs, y) ->
+  Gw ra 1 y ->
+  class_ok ra rb ->
+  exists tps' : list top,
+    top_step av sw ee pf f c h (swap ra rb x) = Ok (c', h', tps', txs, swap ra rb y) /\
+    (len ra <= len rb -> tps' = map (g_top (sh ra rb)) tps) /\ (len rb <= len ra -> tps = map (g_top (sh rb ra)) tps').
+Proof. exact Independence.top_step_context. Qed.
+Print Assumptions top_step_context.
+
+Theorem top_step_state :
+  forall (av : list (text * autovar)) (sw : list (text * text)) (ee : bool) (pf : toks -> res (token * text * text * toks)) 
+    (f : nat) (c : list (text * text)) (h : hst) (ts : toks) (c' : list (text * text)) (h' : hst) (tps : list top) (txs : list textdef)
+    (ts' : toks),
+  top_step av sw ee pf f c h ts = Ok (c', h', tps, txs, ts') ->
+  (ttype (cur ts) <> CONST -> c' = c) /\
+  (ttype (cur ts) = CONST -> h' = h /\ tps = [] /\ txs = [] /\ (exists name v : text, c' = (name, v) :: c)) /\
+  (ttype (cur ts) <> SCRIPT -> ttype (cur ts) <> MAPSCRIPTS -> h' = h) /\
+  (ttype (cur ts) = SCRIPT ->
+   exists (name : text) (g : bool) (b : list stmt) (imp : impdata),
+     parse_script av sw ee pf c f ts = Ok (name, g, b, imp, ts') /\
+     h' = Datatypes.fst (add_implicit imp h) /\
+     tps = [TScript name g (map (pstmt (snd (add_implicit imp h))) b)] /\ (idT imp = [] -> idM imp = [] -> h' = h)) /\
+  (ttype (cur ts) = MAPSCRIPTS ->
+   exists (tp : top) (imp : impdata),
+     parse_mapscripts av sw ee pf c f ts = Ok (tp, imp, ts') /\
+     h' = Datatypes.fst (add_implicit imp h) /\ tps = [patch_top (snd (add_implicit imp h)) tp] /\ (idT imp = [] -> idM imp = [] -> h' = h)).
+Proof. exact Independence.top_step_state. Qed.
+Print Assumptions top_step_state.
+
+Theorem tops_run_context :
+  forall (av : list (text * autovar)) (sw : list (text * text)) (ee : bool) (pf : toks -> res (token * text * text * toks)),
+  format_advs pf ->
+  format_local pf ->
+  forall (ra : toks) (rb : list token),
+  Consume.eof_ended ra ->
+  rb <> [] ->
+  class_ok ra rb ->
+  forall (f : nat) (st : pstate) (x : toks) (f' : nat) (st' : pstate) (y : toks),
+  tops_run av sw ee pf f st x f' st' y ->
+  Gw ra 0 y ->
+  forall st2 : pstate,
+  pconsts st2 = pconsts st ->
+  ph st2 = ph st ->
+  exists (d d' : list top) (e : list textdef),
+    ptops st' = ptops st ++ d /\
+    ptexts st' = ptexts st ++ e /\
+    shifted ra rb d d' /\
+    tops_run av sw ee pf f st2 (swap ra rb x) f' {| pconsts := pconsts st'; ph := ph st'; ptops := ptops st2 ++ d'; ptexts := ptexts st2 ++ e |}
+      (swap ra rb y).
+Proof. exact Independence.tops_run_context. Qed.
+Print Assumptions tops_run_context.
+
+Theorem tops_run_parse_tops :
+  forall (av : list (text * autovar)) (sw : list (text * text)) (ee : bool) (pf : toks -> res (token * text * text * toks)) 
+    (f : nat) (st : pstate) (ts : toks) (f' : nat) (st' : pstate) (ts' : toks),
+  tops_run av sw ee pf f st ts f' st' ts' -> parse_tops av sw ee pf f st ts = parse_tops av sw ee pf f' st' ts'.
+Proof. exact Independence.tops_run_parse_tops. Qed.
+Print Assumptions tops_run_parse_tops.
+
+Theorem parse_tops_same_statements :
+  forall (av : list (text * autovar)) (sw : list (text * text)) (ee : bool) (pf : toks -> res (token * text * text * toks)),
+  format_advs pf ->
+  format_local pf ->
+  forall (ra : toks) (rb X : list token),
+  Consume.eof_ended ra ->
+  rb <> [] ->
+  class_ok ra rb ->
+  forall (f : nat) (st : pstate) (f' : nat) (st' : pstate),
+  tops_run av sw ee pf f st (X ++ ra) f' st' ra ->
+  forall stf : pstate,
+  parse_tops av sw ee pf f st (X ++ rb) = Ok stf ->
+  exists (d d' : list top) (e : list textdef) (rt : list top) (rx : list textdef),
+    ptops st' = ptops st ++ d /\
+    ptexts st' = ptexts st ++ e /\ shifted ra rb d d' /\ ptops stf = ptops st ++ d' ++ rt /\ ptexts stf = ptexts st ++ e ++ rx.
+Proof. exact Independence.parse_tops_same_statements. Qed.
+Print Assumptions parse_tops_same_statements.
+
+Theorem same_statements_in_two_files :
+  forall (av : list (text * autovar)) (sw : list (text * text)) (ee : bool) (pf : toks -> res (token * text * text * toks)),
+  format_advs pf ->
+  format_local pf ->
+  format_lt pf ->
+  forall (ra rb : toks) (A X : list token) (st0 : pstate),
+  Consume.eof_ended ra ->
+  Consume.eof_ended rb ->
+  class_ok ra rb ->
+  forall (F1 f1 : nat) (st1 : pstate),
+  tops_run av sw ee pf F1 st0 (X ++ ra) f1 st1 ra ->
+  5 * len (X ++ ra) + 4 <= F1 ->
+  forall (F2 f2 : nat) (stA : pstate),
+  tops_run av sw ee pf F2 st0 (A ++ X ++ rb) f2 stA (X ++ rb) ->
+  5 * len (A ++ X ++ rb) + 4 <= F2 ->
+  pconsts stA = pconsts st0 ->
+  ph stA = ph st0 ->
+  exists (d d' : list top) (e : list textdef),
+    ptops st1 = ptops st0 ++ d /\
+    ptexts st1 = ptexts st0 ++ e /\
+    shifted ra rb d d' /\
+    tops_run av sw ee pf F2 st0 (A ++ X ++ rb) (f2 - (F1 - f1))
+      {| pconsts := pconsts st1; ph := ph st1; ptops := ptops stA ++ d'; ptexts := ptexts stA ++ e |} rb.
+Proof. exact Independence.same_statements_in_two_files. Qed.
+Print Assumptions same_statements_in_two_files.
+
+Theorem top_step_context_real :
+  forall (av : list (text * autovar)) (sw : list (text * text)) (ee : bool) (fc : fontcfg) (cli_font : text) (cli_maxlen : Z)
+    (ra rb : list token),
+  ra <> [] ->
+  rb <> [] ->
+  forall (f : nat) (c : list (text * text)) (h : hst) (x : toks) (c' : list (text * text)) (h' : hst) (tps : list top) 
+    (txs : list textdef) (y : toks),
+  top_step av sw ee (parse_format fc cli_font cli_maxlen ee) f c h x = Ok (c', h', tps, txs, y) ->
+  Gw ra 1 y ->
+  class_ok ra rb ->
+  exists tps' : list top,
+    top_step av sw ee (parse_format fc cli_font cli_maxlen ee) f c h (swap ra rb x) = Ok (c', h', tps', txs, swap ra rb y) /\
+    (len ra <= len rb -> tps' = map (g_top (sh ra rb)) tps) /\ (len rb <= len ra -> tps = map (g_top (sh rb ra)) tps').
+Proof. exact Independence.top_step_context_real. Qed.
+Print Assumptions top_step_context_real.
+
+Theorem tops_run_context_real :
+  forall (av : list (text * autovar)) (sw : list (text * text)) (ee : bool) (fc : fontcfg) (cli_font : text) (cli_maxlen : Z) 
+    (ra : toks) (rb : list token),
+  Consume.eof_ended ra ->
+  rb <> [] ->
+  class_ok ra rb ->
+  forall (f : nat) (st : pstate) (x : toks) (f' : nat) (st' : pstate) (y : toks),
+  tops_run av sw ee (parse_format fc cli_font cli_maxlen ee) f st x f' st' y ->
+  Gw ra 0 y ->
+  forall st2 : pstate,
+  pconsts st2 = pconsts st ->
+  ph st2 = ph st ->
+  exists (d d' : list top) (e : list textdef),
+    ptops st' = ptops st ++ d /\
+    ptexts st' = ptexts st ++ e /\
+    shifted ra rb d d' /\
+    tops_run av sw ee (parse_format fc cli_font cli_maxlen ee) f st2 (swap ra rb x) f'
+      {| pconsts := pconsts st'; ph := ph st'; ptops := ptops st2 ++ d'; ptexts := ptexts st2 ++ e |} (swap ra rb y).
+Proof. exact Independence.tops_run_context_real. Qed.
+Print Assumptions tops_run_context_real.
+
+Theorem parse_tops_same_statements_real :
+  forall (av : list (text * autovar)) (sw : list (text * text)) (ee : bool) (fc : fontcfg) (cli_font : text) (cli_maxlen : Z) 
+    (ra : toks) (rb X : list token),
+  Consume.eof_ended ra ->
+  rb <> [] ->
+  class_ok ra rb ->
+  forall (f : nat) (st : pstate) (f' : nat) (st' : pstate),
+  tops_run av sw ee (parse_format fc cli_font cli_maxlen ee) f st (X ++ ra) f' st' ra ->
+  forall stf : pstate,
+  parse_tops av sw ee (parse_format fc cli_font cli_maxlen ee) f st (X ++ rb) = Ok stf ->
+  exists (d d' : list top) (e : list textdef) (rt : list top) (rx : list textdef),
+    ptops st' = ptops st ++ d /\
+    ptexts st' = ptexts st ++ e /\ shifted ra rb d d' /\ ptops stf = ptops st ++ d' ++ rt /\ ptexts stf = ptexts st ++ e ++ rx.
+Proof. exact Independence.parse_tops_same_statements_real. Qed.
+Print Assumptions parse_tops_same_statements_real.
+
+Theorem parse_program_same_statements_real :
+  forall (av : list (text * autovar)) (sw : list (text * text)) (ee : bool) (fc : fontcfg) (cli_font : text) (cli_maxlen : Z) 
+    (ra rb : toks) (A X : list token),
+  Consume.eof_ended ra ->
+  Consume.eof_ended rb ->
+  class_ok ra rb ->
+  let st0 := {| pconsts := []; ph := hst0; ptops := []; ptexts := [] |} in
+  forall (f1 : nat) (st1 : pstate),
+  tops_run av sw ee (parse_format fc cli_font cli_maxlen ee) (5 * len (X ++ ra) + 4) st0 (X ++ ra) f1 st1 ra ->
+  forall (f2 : nat) (stA : pstate),
+  tops_run av sw ee (parse_format fc cli_font cli_maxlen ee) (5 * len (A ++ X ++ rb) + 4) st0 (A ++ X ++ rb) f2 stA (X ++ rb) ->
+  pconsts stA = [] ->
+  ph stA = hst0 ->
+  forall p : program,
+  parse_program av sw ee (parse_format fc cli_font cli_maxlen ee) (A ++ X ++ rb) = Ok p ->
+  exists (d' rt : list top) (ht rx : list textdef),
+    shifted ra rb (ptops st1) d' /\ tops p = ptops stA ++ d' ++ rt /\ texts p = ht ++ ptexts stA ++ ptexts st1 ++ rx.
+Proof. exact Independence.parse_program_same_statements_real. Qed.
+Print Assumptions parse_program_same_statements_real.
+
